@@ -11,7 +11,7 @@ from chx.ob import BOOL, CP, PR, R, U, known_active, ob
 FUNCS = ["cdd.compound.exmod.exmod", "cdd.compound.exmod.exmod_single_folder", "cdd.compound.exmod._create_sqlalchemy_mod",
          "cdd.compound.exmod_utils.emit_files_from_module_and_return_imports", "cdd.compound.exmod_utils.emit_file_on_hierarchy",
          "cdd.compound.exmod_utils._emit_symbol", "cdd.shared.emit.file.file"]
-ASSUMPTIONS = ["stub: black.format_str -> identity inside cdd.shared.emit.file under the engine (formatting of the written text is not the subject; replays use the real black)",
+ASSUMPTIONS = ["SOLVER-ENUMERATED: the option flags are the only symbolic values; each is made concrete by a fork (chx.shim.fix_bool/fix_int) and the command then runs untraced on the real file system, with the real black",
                "file-system mutators (os.mkdir/makedirs/remove/rename/rmdir/unlink/replace, shutil.rmtree/copy*/move, open for w/a/x/+) are wrapped by "
                "recording monitors that then perform the real operation inside a scratch directory created per execution outside /repo and /verif",
                "the fixture package tree is concrete (2 levels, classes and functions re-exported through __init__ and __all__); option flags are solver booleans: "
@@ -72,10 +72,8 @@ class FsMonitor:
         mods = (ex, exu, ef, pk, sq)
         from chx.shim import REPLAYING
 
-        if not REPLAYING():  # stub: source formatting is not the subject and black is a large pure-Python program (very slow when traced)
-            import types
-
-            self._set(ef.__dict__, "black", types.SimpleNamespace(format_str=lambda src_contents, mode=None: src_contents, Mode=lambda **kw: None))
+        if False:  # (historical) black used to be stubbed because it is very slow when traced; the bodies now run untraced, so the real black formats the files
+            pass
         for modname, names in self.NAMES.items():
             lib = __import__(modname)
             for n in names:
@@ -216,9 +214,19 @@ def dry_after_real(emit, rec1, rec2, sql_sub):
     return ""
 
 
+def _dar(e, rec1, rec2, sql_sub):
+    from chx.shim import fix_bool, untraced
+
+    a = (fix_bool(rec1), fix_bool(rec2), fix_bool(sql_sub))
+    return untraced(lambda: dry_after_real(e, *a))
+
+
 def _mk(emit):
     def body(dry_run, recursive, no_word_wrap, blacklist_sub, sql_sub, preexisting, bl_root=False, wl=0):
-        return run_exmod(emit, dry_run, recursive, no_word_wrap, blacklist_sub, sql_sub, preexisting, bl_root, wl)
+        from chx.shim import fix_bool, fix_int, untraced
+
+        a = (fix_bool(dry_run), fix_bool(recursive), fix_bool(no_word_wrap), fix_bool(blacklist_sub), fix_bool(sql_sub), fix_bool(preexisting), fix_bool(bl_root), fix_int(wl, 0, 2))
+        return untraced(lambda: run_exmod(emit, *a))
 
     body.__name__ = "exmod_" + emit
     return body
@@ -243,7 +251,7 @@ for _e in ("class", "sqlalchemy_table", "sqlalchemy", "sqlalchemy_hybrid", "func
     ob("C20", "P2.dry_after_real.%s" % _e, {"rec1": BOOL, "rec2": BOOL, "sql_sub": BOOL if _e.startswith("sqlalchemy") else R(0, 0)},
        tier="quick" if _e in ("class", "sqlalchemy_table") else "thorough", T=1500, tpath=600, funcs=FUNCS,
        bound="history of two runs on the same output directory: a real run (recursive on/off) then a dry run (recursive on/off), emit kind %s%s: the dry run reaches no mutator"
-             % (_e, ", emit_sqlalchemy_submodule on/off" if _e.startswith("sqlalchemy") else ""))((lambda e: (lambda rec1, rec2, sql_sub: dry_after_real(e, rec1, rec2, sql_sub)))(_e))
+             % (_e, ", emit_sqlalchemy_submodule on/off" if _e.startswith("sqlalchemy") else ""))((lambda e: (lambda rec1, rec2, sql_sub: _dar(e, rec1, rec2, sql_sub)))(_e))
 
 
 for _e in ("class", "function", "sqlalchemy_table"):
@@ -256,7 +264,10 @@ for _e in ("class", "function", "sqlalchemy_table"):
 # P4: second tree - the exposed sub-module re-exports a symbol defined OUTSIDE it; installed or not; output directory named like the target module or not ------
 def _mk2(emit):
     def body(dry_run, recursive, installed, named, preexisting):
-        return run_exmod(emit, dry_run, recursive, 0, False, False, preexisting, tree=1, installed=installed, named=named)
+        from chx.shim import fix_bool, untraced
+
+        a = (fix_bool(dry_run), fix_bool(recursive), fix_bool(installed), fix_bool(named), fix_bool(preexisting))
+        return untraced(lambda: run_exmod(emit, a[0], a[1], 0, False, False, a[4], tree=1, installed=a[2], named=a[3]))
 
     body.__name__ = "exmod_reexport_" + emit
     return body
